@@ -5,23 +5,45 @@ from common import sh2
 
 LEVEL = "proof"
 MANIFEST = {
-    "technique": "Coq proof over Gallina models of the separately written pairs + generated registry facts + differential "
-                 "correspondence (extracted OCaml vs Go) + the property itself evaluated on testdata files, boxes and mutants",
+    "technique": "Coq proof over Gallina models of the separately written pairs (framing AND the leaf decoder pairs trun, senc, mdat, "
+                 "stsd, visual sample entry, each decoder transcribed from its own Go text) + generated registry facts + differential "
+                 "correspondence (extracted OCaml vs Go: decoded fields, sizes, positions, outcome classes) + the property itself "
+                 "evaluated on testdata files, harvested and generated boxes and mutants (structural comparison of the two decodings)",
     "level_text": "PROVED for all inputs (coq/c03/C03Theorems.v): EncodeContainer = EncodeContainerSW on every container tree and "
                   "File.Encode = File.EncodeSW (init, sidx, segments, fragments, mfra; segment and box-tree mode) given leaves that encode "
                   "identically through their two methods (C03_encode_agree, C03_box_encode_agree; the pinned EncodeSW without mfra is refuted); "
                   "the DecodeFile and DecodeFileSR loops build the same File (grouping and StartPos) for every list of top-level box shapes "
-                  "under the options both support (C03_file_agree); every canonical byte string (compact headers, any nesting of container "
-                  "kinds, leaves whose two decoders accept their canonical payload; instantiated for mdat/free/skip/unknown) is accepted by "
-                  "DecodeBox and DecodeBoxSR with the same tree (C03_decode_agree_canonical, over the C04 header and child-loop models), and a canonical file yields the same box sequence from both byte-level file loops (C03_file_boxes_agree); "
-                  "the key sets of decoders and decodersSR are equal (C03_registry, regenerated from the hook on every run). "
-                  "EXPLORED only: the ~130 leaf decoder/encoder pairs (trun, senc, stsd, visual sample entry ...), i.e. the hypotheses "
-                  "`leaves agree` of the theorems: both paths are run on every testdata file, every harvested box and their structured "
-                  "mutants; whenever one path accepts and reproduces the input exactly the other must accept with an equal Info dump, "
-                  "equal segment grouping and StartPos, and Encode/EncodeSW must give equal bytes or both fail.",
-    "level_note": "Trusted: Coq kernel, extraction, OCaml/Go glue, the hook mp4.VerifDecoderKeys. Models tied to /repo by correspondence "
-                  "on generated inputs only (shape lists through both file loops; decoded File structures with per-box encodings against "
-                  "File.Encode/EncodeSW bytes). Structural equality is judged on the Info(all:1) dump plus grouping observables.",
+                  "under the options both support (C03_file_agree); every canonical byte string - compact headers OR the 16-byte largesize "
+                  "header that MdatBox.Encode keeps (CLarge), any nesting of container kinds - is accepted by DecodeBox and DecodeBoxSR with "
+                  "the same tree, i.e. the same Size() of every box and the same start position of everything after it "
+                  "(C03_decode_agree_canonical, C03_std_canon_large), and a canonical file yields the same box sequence from both "
+                  "byte-level file loops (C03_file_boxes_agree). LEAF PAIRS, both decoders modelled separately: trun (C03_trun_pair_agree: "
+                  "for EVERY body behind a header with Size = 8 + len(body) the two decoders both fail or return the same fields, the SR "
+                  "decoder consuming exactly the body wherever it sits in the caller's buffer), senc (C03_senc_pair_agree, compact and "
+                  "16-byte header, text of /repo b8f1424), mdat (C03_mdat_pair_agree, both header lengths, LargeSize carried on both "
+                  "paths); whole boxes through DecodeBox/DecodeBoxSR followed by arbitrary bytes (C03_leaf_boxes_agree); the leaf "
+                  "hypotheses of the framing theorems are discharged for these pairs (C03_pair_leaves_ok, C03_pair_canon_trun/senc/mdat/"
+                  "large_mdat, C03_pair_decode_agree_canonical, C03_pair_file_boxes_agree); stsd (C03_stsd_pair_agree_canonical) and the "
+                  "visual sample entry (C03_vse_pair_agree_canonical): on every canonical payload (entry count = entries / 78 fixed bytes "
+                  "with name length <= 31; canonical children over ANY leaf pair satisfying the leaf contract) both decoders accept with "
+                  "the same value. The compact-header guard of the trun theorem is exact (C03_trun_large_header_differs, witness "
+                  "replayed on the Go code; not a canonical string, so not a property violation). The key sets of decoders and decodersSR "
+                  "are equal (C03_registry, regenerated from the hook on every run). "
+                  "EXPLORED only: the remaining ~125 leaf decoder pairs (most reader-path decoders read the body and delegate to the SR "
+                  "decoder) and all leaf ENCODER pairs, i.e. the hypothesis `leaves agree` of the encode theorems: both paths are run on "
+                  "every testdata file, every harvested box, generated trun/senc/mdat/stsd/sample-entry boxes, every box kind and every "
+                  "file with 16-byte-header boxes before/between/after fragments, and their structured mutants; whenever one path accepts "
+                  "and reproduces the input exactly the other must accept with an equal Info dump, field-by-field equal structure "
+                  "(nil == empty, unexported fields included), equal Size of every box, LargeSize/StartPos of mdat, StartPos of "
+                  "moof/fragments/segments, the same re-encoding, and Encode/EncodeSW must give equal bytes or both fail.",
+    "level_note": "Trusted: Coq kernel, extraction, OCaml/Go glue, the hooks mp4.VerifDecoderKeys / mp4.VerifC03SencRaw. Models tied to /repo by "
+                  "correspondence on generated inputs only: shape lists (incl. largesize mdat / unknown boxes) through both file loops; "
+                  "decoded File structures with per-box encodings against File.Encode/EncodeSW bytes; box trees and byte-level files with "
+                  "16-byte headers through both decoders (B, L); decoded fields, Size, bytes consumed and AccError of both decoders of "
+                  "trun/senc/mdat (T) and stsd/visual sample entry (V) on valid and malformed boxes (every trun flag combination, lying "
+                  "sizes, truncations, inflated counts, trailing bytes, 16-byte headers). stsd and the sample entry are modelled at "
+                  "startPos 0 (only position differences are used; no uint64 wrap below 2^63). The leaf-pair theorems are about the "
+                  "models; children of sample entries in the correspondence are the standard leaves (free/skip/mdat/unknown/udta/trun/senc).",
 }
 
 ULIMIT_KB = 6 * 1024 * 1024
@@ -74,10 +96,13 @@ def run(ctx):
     ctx.cov["trusted_base"] = common.TRUSTED_BASE_COMMON + [
         "model: coq/c03/C03Model.v (container.go EncodeContainer(SW), file.go File.Encode(SW), mediasegment.go, fragment.go, "
         "initsegment.go Encode(SW), the DecodeFile / DecodeFileSR loops) is a hand transcription; the assembly steps are C04AsmModel.v",
+        "model: coq/c03/C03LeafModel.v (trun.go DecodeTrun/DecodeTrunSR, senc.go DecodeSenc/DecodeSencSR, mdat.go DecodeMdat/DecodeMdatSR, "
+        "stsd.go DecodeStsd/DecodeStsdSR, visualsampleentry.go DecodeVisualSampleEntry/...SR) is a hand transcription, one Gallina function per Go function",
         "hook: /repo/mp4/verif_c03.go VerifDecoderKeys (add-only, build tag verif); coq/c03/C03Registry.v generated from it",
     ]
     ctx.assumptions += [
         "leaves encode identically through Encode and EncodeSW (hypothesis of the encode theorems; explored for the real leaves)",
+        "leaf decoder pairs other than trun, senc, mdat, stsd, visual sample entry: hypothesis `canonical leaf` of the decode theorems (explored)",
         "the slice writer handed to EncodeSW is large enough; io.Writer never fails",
         "file-level decode agreement is stated for default options (DecodeFileSR has no ISM / lazy support)",
     ]
@@ -97,10 +122,19 @@ def run(ctx):
     ctx.notes["correspondence"] = {
         "cases": len(lines), "mismatches": len(mism), "distinct_cases": distinct,
         "kinds": {k: sum(1 for l in lines if l.startswith(k + "\t")) for k in ("D", "E", "B", "L", "T", "V")},
-        "input_distribution": "D: all shape lists up to length %d over the 29-letter C04 alphabet + %d random longer lists, through DecodeFile and "
+        "input_distribution": "D: all shape lists up to length %d over the 32-letter alphabet (C04's 29 + mdat(0/4) and an unknown box behind a 16-byte "
+                              "header) + %d random longer lists, through DecodeFile and "
                               "DecodeFileSR with flags none / start-on-moof: outcome class, grouping, StartPos; E: the same lists (length >= 2) and 6 small "
                               "testdata files decoded (reader/SR, ISM on/off), the File structure dumped with each box's Encode and EncodeSW bytes, "
-                              "model composition vs File.Encode / File.EncodeSW bytes in both modes" % (exh, n),
+                              "model composition vs File.Encode / File.EncodeSW bytes in both modes; B: %d box trees (half of the leaves and a quarter of "
+                              "the containers behind 16-byte headers; trun/senc leaves; stsd{sample entries}; every second tree mutated) + every std "
+                              "kind x {large, nested large mdat, lying 64-bit sizes} through DecodeBox/DecodeBoxSR vs box_r/box_sr top_leaves; L: %d "
+                              "byte-level progressive files over free/skip/mdat/unknown/udta/dinf with compact and 16-byte headers (every second one "
+                              "mutated) through DecodeFile/DecodeFileSR vs file_r/file_sr: Size of every top-level box, StartPos of mdat; T: every trun "
+                              "flag combination x 0..2 samples x {as is, sibling/junk after, 16-byte header, lying size fields, truncations, inflated "
+                              "counts}, senc over version/flags/count/raw length, mdat, + %d random truns/sencs each with a mutated copy: fields, Size, "
+                              "consumed, AccError of both decoders vs the two model decoders; V: the same for stsd and 8 sample-entry types (name "
+                              "lengths 0/4/31/32/255, 0..2 children incl. lying children, boxes shorter than the 78 fixed bytes)" % (exh, n, n, n, n),
     }
     ctx.cov["samples"] += [l[:300] for l in lines[:2]] + [l[:300] for l in lines[len(lines) // 2:len(lines) // 2 + 2]]
     ctx.log("correspondence: %d cases, %d mismatches" % (len(lines), len(mism)))
@@ -131,10 +165,14 @@ def run(ctx):
                        "mismatches": len(mism), "first_case": by_id.get(first[1], "")[:4000], "model_says": mism[0][:2000]},
                       "model/implementation disagree on %d cases" % len(mism), no_input=True)
     ctx.proof_violation_if_broken(pr, "c03 search: %d evaluations" % ctx.notes.get("search_evaluations", 0))
-    ctx.cov["rule"] = ("corr: shape lists through both file decode loops + decoded File structures through both file encoders; distinct = distinct "
+    ctx.cov["rule"] = ("corr: shape lists through both file decode loops + decoded File structures through both file encoders + box trees / byte-level "
+                       "files with 16-byte headers + leaf boxes (trun, senc, mdat, stsd, sample entries) through both decoders; distinct = distinct "
                        "case lines; search: every testdata file, every harvested box (not mdat, <= 64 KiB), the repo fuzz seeds of the container family and "
-                       "their structured mutants (C04 mutation set) through both decode paths and both encoders: accept+reproduce on one path => accept, "
-                       "equal Info(all:1) dump, equal grouping/StartPos on the other; Encode vs EncodeSW equal bytes or both fail (both modes, ISM on/off)")
+                       "their structured mutants (C04 mutation set), every harvested box kind behind a 16-byte header / with a largesize mdat child, every "
+                       "testdata file and synthesized progressive/fragmented file with largesize mdat boxes before/between/after its boxes, every generated "
+                       "leaf-pair box, through both decode paths and both encoders: accept+reproduce on one path => accept, equal Info(all:1) dump, "
+                       "field-by-field equal structure, equal sizes/LargeSize/StartPos/grouping and the same re-encoding on the other; "
+                       "Encode vs EncodeSW equal bytes or both fail (both modes, ISM on/off)")
 
 
 def replay(ctx, path):
